@@ -41,9 +41,20 @@ def resp? : Sexp → Option Resp
   | .list [.atom "x", f] => do pure (.external (← nat? f))
   | .atom "miss" => some .missing
   | .atom "err" => some .error
+  | .atom "cks" => some .checksumError
   | _ => none
 
 def world? : Sexp → Option World
+  | .list [.atom "world", .list (.atom "resp" :: rs), .list (.atom "content" :: cs),
+           .list (.atom "wasm" :: ws), .list (.atom "node" :: ns), mr, .list (.atom "lock" :: ls),
+           .list (.atom "hashes" :: hs), hl, .list (.atom "remote" :: rem)] => do
+    let base ← world? (.list [.atom "world", .list (.atom "resp" :: rs), .list (.atom "content" :: cs),
+           .list (.atom "wasm" :: ws), .list (.atom "node" :: ns), mr, .list (.atom "lock" :: ls)])
+    let hh ← hs.mapM fun
+      | .list [k, a, b] => do pure ((← nat? k), (← nat? a), (← nat? b))
+      | _ => none
+    pure { base with hashUse := hh.map fun (k, a, _) => (k, a), hashReload := hh.map fun (k, _, b) => (k, b),
+                     hasLocker := ← bool? hl, remote := ← nats? rem }
   | .list [.atom "world", .list (.atom "resp" :: rs), .list (.atom "content" :: cs),
            .list (.atom "wasm" :: ws), .list (.atom "node" :: ns), mr, .list (.atom "lock" :: ls)] => do
     let resp ← rs.mapM fun
@@ -109,7 +120,8 @@ def showSt (st : St) : String :=
   let slots := (sortByKey st.slots).map fun (k, sl) => s!"S{k}={showSlot sl}"
   let reds := (sortByKey st.redirects).map fun (a, b) => s!"R{a}>{b}"
   let log := st.log.map fun c =>
-    s!"L{c.spec}:{if c.ensureCached then "c" else "l"}:{if c.inDyn then 1 else 0}:{match c.checksum with | some x => toString x | none => "n"}"
-  " ".intercalate (slots ++ reds ++ log)
+    s!"L{c.spec}:{if c.ensureCached then "c" else "l"}{if c.reload then "!" else ""}:{if c.inDyn then 1 else 0}:{match c.checksum with | some x => toString x | none => "n"}"
+  let writes := st.lockWrites.map fun (s, h) => s!"W{s}={h}"
+  " ".intercalate (slots ++ reds ++ log ++ writes)
 
 end DG.Build
